@@ -134,7 +134,7 @@ def gen(rng, tier):
             if f["cols"][2] == "transcript":
                 f["cols"][2] = rng.choice(["mRNA", "ncRNA", "transcript"])
     return {"feats": feats, "custom": custom, "kw": kw, "form": rng.choice(["path", "string", "list", "gen"]), "shared": shared,
-            "tx_types": tx_types, "failed_update_probe": rng.random() < 0.2,
+            "tx_types": tx_types, "failed_update_probe": rng.random() < 0.2, "late_update": rng.choice([None, None, "list", "gen", "string"]),
             "after": rng.choice(["none", "reopen", "restart", "restart"]), "fault": fault, "updates": updates, "pair": pair,
             "base_no_trailing_semicolon": rng.random() < 0.35,
             # no two lines of these inputs share a key, so every strategy must give the same database
@@ -377,6 +377,22 @@ def run(case):
                         check(model, case, d2["dump"], V, "fresh process")
                     else:
                         V.append(viol("C03.import", "fresh process cannot read: %s" % d2["msg"], kind="read_failed"))
+                if not V and case.get("late_update") and not case.get("failed_update_probe") and not case.get("custom") and not case.get("shared") and not case.get("tx_types") \
+                        and node.alive:
+                    # a further update through whatever handle is open now (possibly one opened after the earlier updates): the
+                    # law holds for its lines too
+                    lf = [G.mf(["chrL", "src", "exon", 100, 200, ".", "+", "."], [["gene_id", ["LG1"]], ["transcript_id", ["LT1"]]]),
+                          G.mf(["chrL", "src", "exon", 300, 450, ".", "+", "."], [["gene_id", ["LG1"]], ["transcript_id", ["LT1"]]])]
+                    lr = call(node, {"op": "update", "h": "h", "data": G.source_spec(None, lf, form=case["late_update"], d=G.DEFAULT_GTF),
+                                     "kw": dict(kw, merge_strategy=case.get("strategy", "error"), make_backup=False)})
+                    if not lr["ok"]:
+                        V.append(viol("C03.update", "a later update raised %s: %s" % (lr["exc"], lr["msg"]), kind="update_failed", exc=lr["exc"], retried=False))
+                    else:
+                        model.import_gtf(lf, strategy="error", id_spec=id_spec)
+                        dl = call(node, {"op": "dump", "h": "h"})
+                        if dl["ok"]:
+                            check(model, case, dl["dump"], V, "after a later update (handle state: %s)" % case["after"])
+                            probes["update_after_%s" % case["after"]] = 1
                 out["digests"].add(core.digest(d["dump"]["features"]))
         out["stats"] = w.stats
     if case.get("pair") and not V and not out.get("discarded"):
